@@ -372,7 +372,31 @@ func runC11(c c11Case, st *hx.Stats) error {
 		}
 	}
 	f.Close()
+	// the same file through the library on a filesystem that is not re-rooted (absolute host paths): the same sources
+	// decide, in particular the parallel REDKEY directory is the one beside PS3ISO, wherever the process stands
+	abs := filepath.Join(root, filepath.FromSlash(rel))
+	if af, err := (&pfs.FS{Fs: afero.NewOsFs()}).Open(abs); err != nil {
+		return hx.Failf("open-succeeds", "FS.Open(%s) on a plain OsFs failed: %v (through a re-rooted one it opened)", abs, err)
+	} else {
+		got, err := io.ReadAll(af)
+		af.Close()
+		if err != nil || !bytes.Equal(got, whole) {
+			return hx.Failf("documented-source", "%s opened by its absolute path on a plain OsFs reads differently (first difference at %d, err %v) from the same file on a re-rooted filesystem (%s)", rel, firstDiffB(got, whole), err, labels[idx])
+		}
+		st.Label("also opened by absolute path on a plain OsFs")
+	}
 	// opened for writing: passed through byte-identically
+	for _, fl := range []int{os.O_RDWR, os.O_RDWR | os.O_SYNC} {
+		wf, err := fsys.OpenFile(rel, fl, 0)
+		if err != nil {
+			return hx.Failf("write-open-passthrough", "OpenFile(%s, O_RDWR) failed: %v", rel, err)
+		}
+		got, err := io.ReadAll(wf)
+		wf.Close()
+		if err != nil || !bytes.Equal(got, stored) {
+			return hx.Failf("write-open-passthrough", "%s opened for reading and writing (flags %#x) does not read back byte-identically (err %v)", rel, fl, err)
+		}
+	}
 	wf, err := fsys.OpenFile(rel, os.O_RDWR|os.O_APPEND, 0)
 	if err != nil {
 		return hx.Failf("write-open-passthrough", "OpenFile(%s, O_RDWR|O_APPEND) failed: %v", rel, err)
